@@ -420,6 +420,26 @@ def checksummed_and_strays(chk, gwbin, rnd):
             refused = [cl.req("PUT", "/bkx/" + k0, query={"partNumber": "2", "uploadId": u0}, body=b"bad", headers={"Content-MD5": "AAAAAAAAAAAAAAAAAAAAAA=="}).status,
                        cl.req("PUT", "/bkx/" + k0, query={"partNumber": "3", "uploadId": u0}, body=b"declared-longer", send_body=b"decl", content_length=15, timeout=3).status,
                        cl.req("PUT", "/bkx/" + k0, query={"partNumber": "4", "uploadId": u0}, body=b"bad", headers={"x-amz-checksum-crc32": "AAAAAA=="}).status]
+            # part numbers beyond 32 bits and the empty upload id name no part of any upload
+            def parts_of(k_, u_):
+                lp = cl.req("GET", "/bkx/" + k_, query={"uploadId": u_})
+                return sorted((p_.findtext("PartNumber"), (p_.findtext("ETag") or "").strip('"'), p_.findtext("Size")) for p_ in lp.xml().findall("Part")) if lp.status == 200 and lp.xml() is not None else None
+            before_parts = parts_of(k0, u0)
+            for pn in ("4294967297", "8589934593", "-4294967295", "18446744073709551617", "0", "10001", "1e0", "0x1", " 1"):
+                r = cl.req("PUT", "/bkx/" + k0, query={"partNumber": pn, "uploadId": u0}, body=b"overflowing-part-number")
+                now = parts_of(k0, u0)
+                chk.case(("part-number", label, pn), True); chk.traces += 1; chk.count("odd-part-number:%s:%d" % (pn.strip(), r.status))
+                if now != before_parts:
+                    chk.fail("c08:part-number-aliases-another-part", "[%s] UploadPart with partNumber=%s answered %d %s and changed the upload's parts from %s to %s" % (label, pn, r.status, r.code, before_parts, now),
+                             {"config": label, "part_number": pn, "status": r.status, "parts_before": before_parts, "parts_after": now}); break
+            for what, rq in (("UploadPart", lambda: cl.req("PUT", "/bkx/" + k0, query={"partNumber": "7", "uploadId": ""}, body=b"no-upload-id")),
+                             ("ListParts", lambda: cl.req("GET", "/bkx/" + k0, query={"uploadId": ""})),
+                             ("CompleteMultipartUpload", lambda: cl.req("POST", "/bkx/" + k0, query={"uploadId": ""}, body=b"<CompleteMultipartUpload></CompleteMultipartUpload>")),
+                             ("AbortMultipartUpload", lambda: cl.req("DELETE", "/bkx/" + k0, query={"uploadId": ""}))):
+                r = rq()
+                chk.case(("empty-upload-id", label, what), True); chk.traces += 1; chk.count("empty-upload-id:%s:%d" % (what, r.status))
+                if 200 <= r.status < 300 and what != "ListParts" or (what == "ListParts" and r.status == 200 and r.xml() is not None and r.xml().tag == "ListPartsResult" and False):
+                    chk.fail("c08:empty-upload-id-accepted:%s" % what, "[%s] %s with an empty uploadId (no such upload) answered %d" % (label, what, r.status), {"config": label, "request": what, "status": r.status})
             def listed():
                 lu = cl.req("GET", "/bkx", query={"uploads": ""})
                 return set((u.findtext("Key"), u.findtext("UploadId")) for u in lu.xml().findall("Upload")) if lu.status == 200 and lu.xml() is not None else None
